@@ -284,7 +284,7 @@ func TestVerifC11Client(t *testing.T) {
 	brokers := []string{"http://broker.invalid/", "http://broker.invalid/sub/", "http://broker.invalid:8080/x/", "http://snowflake-broker.example.invalid", "http://broker.invalid/a/b?q=1"}
 	fronts := []string{"", "front.invalid", "front.invalid:8443", "cdn.front.invalid"}
 	caches := []string{"", "http://cache.invalid/", "http://amp.cache.invalid/amp/", "http://cache.invalid:8081"}
-	statuses := []int{200, 200, 200, 200, 201, 301, 400, 404, 500, 503}
+	statuses := []int{200, 200, 200, 200, 201, 301, 302, 307, 400, 404, 500, 503}
 	sizes := []int{0, 1, 50, 5000, readLimit - 1, readLimit, readLimit + 1, readLimit + 2, readLimit + 5000}
 
 	// ---------------------------------------------------------------- HTTP rendezvous
@@ -300,15 +300,20 @@ func TestVerifC11Client(t *testing.T) {
 		rng.Read(body)
 		req := make([]byte, 1+rng.Intn(300))
 		rng.Read(req)
+		hloc := ""
+		if status/100 == 3 && rng.Intn(3) != 0 {
+			// a front or broker that redirects: the answer is a non-200 status to report, not a trail to follow
+			hloc = []string{"http://redirect-target.invalid/client", "/client", "https://broker.invalid/elsewhere"}[rng.Intn(3)]
+		}
 		f.mu.Lock()
-		f.status, f.body, f.location, f.seen, f.dialled = status, body, "", nil, nil
+		f.status, f.body, f.location, f.seen, f.dialled = status, body, hloc, nil, nil
 		f.mu.Unlock()
 		m, err := newHTTPRendezvous(broker, front, f.transport())
 		if err != nil {
 			t.Fatal(err)
 		}
 		res := c11Exchange(m, req)
-		caseLine := fmt.Sprintf("http broker=%s front=%q status=%d bodylen=%d", broker, front, status, n)
+		caseLine := fmt.Sprintf("http broker=%s front=%q status=%d location=%q bodylen=%d", broker, front, status, hloc, n)
 		r.Case(fmt.Sprintf("http/front=%v/status200=%v/size%+d/%s", front != "", status == 200, c11Bucket(n), c11ErrClass(res.err)), caseLine, true)
 		if res.out != "returned" {
 			r.OracleFail("exchange-"+strings.SplitN(res.out, ":", 2)[0], caseLine, res.out, "Exchange must return")
